@@ -285,7 +285,7 @@ def step (st : St) (ts : List String) : St × String :=
   | ["concatc", c] => match byte? c with
     | some c => qry st fun r => showO (r.concat [c]) | none => (st, "bad-op")
   | ["rconcat", h] => match unhex h with
-    | some b => qry st fun r => showO ((Rep.ofCStr b).bind fun s => s.append (.ext r.toList)) | none => (st, "bad-op")
+    | some b => qry st fun r => showO (Rep.rconcat b r) | none => (st, "bad-op")
   | ["split", h] => match unhex h with
     | some sep => qry st fun r => if sep.isEmpty then "err empty" else showList (r.split sep)
     | none => (st, "bad-op")
